@@ -33,15 +33,19 @@ def run(cx):
     with cx.ob("C16.1", "R-PATHSEQ", "Router::call: one dispatch per request — matched route on Ok, fallback on every MatchError variant") as ob:
         b = call
 
+        # (the one-line forwarder RouteMatcher::at is always inlined: the lookup is matchit's `at` on the router's own table)
+        AT = "matchit::router::Router::at"
+
         def call_sym(c, o):
-            if name_matches(c.fn, f"{R}::RouteMatcher::at"):
+            if name_matches(c.fn, AT):
                 p = strip_identity(o.of_operand(c.args[1]))
-                ok = mentions_field(o.of_operand(c.args[0]), "matcher") and p[0] == "call" and name_matches(p[1], "Request::route") and is_param(p[2][0], "req")
+                ok = mentions_field(o.of_operand(c.args[0]), "matcher") and mentions_field(o.of_operand(c.args[0]), "inner") and mentions_param(o.of_operand(c.args[0]), "self") \
+                    and p[0] == "call" and name_matches(p[1], "Request::route") and is_param(p[2][0], "req")
                 return "at(req.route)" if ok else "at(?)"
             if name_matches(c.fn, "BTreeMap::get"):
                 k = o.of_operand(c.args[1])
                 ok = mentions_field(o.of_operand(c.args[0]), "routes") and mentions_field(k, "value") and any(x[0] == "variant" and x[2] == "Ok" for x in walk(k)) \
-                    and term_has_call(k, f"{R}::RouteMatcher::at")
+                    and term_has_call(k, AT)
                 return "get(match.value)" if ok else "get(?)"
             if name_matches(c.fn, f"{R}::route::Route::oneshot_inner"):
                 r = o.of_operand(c.args[0])
@@ -63,9 +67,9 @@ def run(cx):
             if subj[0] == "discr":
                 u = subj[1]
                 r = strip_identity(u)
-                if r[0] == "call" and name_matches(r[1], f"{R}::RouteMatcher::at"):
+                if r[0] == "call" and name_matches(r[1], AT):
                     return "[" + "|".join(sorted(labels)) + "]"
-                if any(x[0] == "variant" and x[2] == "Err" for x in walk(u)) and term_has_call(u, f"{R}::RouteMatcher::at"):
+                if any(x[0] == "variant" and x[2] == "Err" for x in walk(u)) and term_has_call(u, AT):
                     return "err=" + "|".join(sorted(labels))
             return None
         ws = seq_words(b, call_sym, None, extra)
@@ -73,11 +77,6 @@ def run(cx):
         ws = {tuple(x for x in w if x != "err=ExtraTrailingSlash|MissingTrailingSlash|NotFound") for w in ws}
         check_words(ob, b, ws, {"at(req.route) [Ok] get(match.value) ret=found.oneshot(req) <return>",
                                 "at(req.route) [Err] ret=fallback.oneshot(req) <return>"}, "Router::call")
-        # RouteMatcher::at is the matchit lookup on the router's own table
-        ab = cx.body(f"{R}::RouteMatcher::at")
-        t = Origins(ab).of_local(0)
-        ob.require(t[0] == "call" and name_matches(t[1], "matchit::router::Router::at") and mentions_field(t[2][0], "inner") and is_param(t[2][1], "path"), "RouteMatcher::at",
-                   f"RouteMatcher::at returns {show(t)}", ab.path)
         # Route::oneshot_inner / Route::call dispatch to the boxed service once
         ob_ = cx.body(f"{R}::route::Route::oneshot_inner")
         t = strip_identity(Origins(ob_).of_local(0))
@@ -160,8 +159,14 @@ def run(cx):
         io = Origins(ib)
         hi = [c for c in ib.calls_to("HashMap::insert") if mentions_field(io.of_operand(c.args[0]), "route_id_to_path")]
         mm = ib.calls_to("matchit::router::Router::insert")
-        ok = len(hi) == 1 and len(mm) == 1 and is_param(io.of_operand(hi[0].args[1]), "val") and is_param(io.of_operand(mm[0].args[2]), "val") \
-            and mentions_param(io.of_operand(hi[0].args[2]), "path") and mentions_param(io.of_operand(mm[0].args[1]), "path")
+        def p_is(t, idx):          # by position (self, path, id): the parameters' names and exact types are free
+            t = strip_identity(t)
+            return t[0] == "param" and t[1] == idx
+
+        def p_in(t, idx):
+            return any(x[0] == "param" and x[1] == idx for x in walk(t))
+        ok = len(hi) == 1 and len(mm) == 1 and p_is(io.of_operand(hi[0].args[1]), 3) and p_is(io.of_operand(mm[0].args[2]), 3) \
+            and p_in(io.of_operand(hi[0].args[2]), 2) and p_in(io.of_operand(mm[0].args[1]), 2)
         ob.require(ok, "matcher-insert/id-path", "RouteMatcher::insert does not record (id → path) for the inserted route", ib.path)
         # routes never shrinks / ids monotone
         acc = [x for x in field_accesses(prog, RT, "routes", crates=["anemo"]) if x[2] in ("mutref", "write", "move") and not x[0].is_cleanup(x[1])]
